@@ -2900,7 +2900,8 @@ impl InferContext {
                 } else {
                     let first = arm_tys[0];
                     for ty in arm_tys.iter().skip(1) {
-                        let _ = self.unify_types(first, *ty);
+                        // all arms must have the same type, like the two arms of `if`
+                        self.unify_types(first, *ty)?;
                     }
                     Ok(first)
                 }
